@@ -151,7 +151,7 @@ CLAIMED.update({
              "arbitrary imported name (bound name, target path, import map, self-import / submodule-import exceptions, runtime flag, span), "
              "_build_attribute (value.attr: the new name is linked to the name on its left so it resolves segment by segment, a dotted chain stays one flat chain in source order). "
              "relative_to_absolute == importlib's _resolve_name is verified symbolically for levels 0..3 and nesting <= 3; agreement with CPython binding is a bounded native tier.",
-        note="Modular recursion on the parent scope; ast invariants (asname None or non-empty). Code that raises NameError in CPython (names of an enclosing class used in a nested class body) is outside the domain. Fixed: C04-P1 (a module's globals are the last scope).",
+        note="Modular recursion on the parent scope; ast invariants (asname None or non-empty). A nested class body does not see the names of the enclosing class: stated as an obligation, fails on the pinned tree (known finding C04-F1; code that raises NameError in CPython is outside the domain, the failing input is a valid program with a module-level homonym). Fixed: C04-P1 (a module's globals are the last scope).",
         ref="DESIGN.md 3/C04"),
 })
 
